@@ -203,6 +203,15 @@ DevScaleOK(e) ==
               /\ e.l2c \in {"fin", "inf"}
               /\ e.dexp < 0 => (e.l2c = "fin" /\ e.l2le)
 
+(* i8 / i16 / i32 arrays with more elements than i8 / i16 can count and so few, so small differences that every distance fits *)
+(* the type: counts and distances exact, the means are the distances divided by the number of elements (logged times n, in   *)
+(* units of 2^-10)                                                                                                         *)
+DevNarrowOK(e) ==
+    LET n == Len(e.a)  sq == SqL2(e.a, e.b)  l1 == L1(e.a, e.b) IN
+    /\ e.ceq = CountEq(e.a, e.b) /\ e.ceq + e.cneq = n
+    /\ e.sq = sq /\ e.l1 = l1 /\ e.linf = Linf(e.a, e.b)
+    /\ Abs(e.maen - 1024 * l1) <= 1 /\ Abs(e.msen - 1024 * sq) <= 1 /\ Abs(e.rmse2n - 1024 * sq) <= 2
+
 EventOK(e) ==
     CASE e.ev = "summ" -> (IF PROP = "C18" THEN SummPairOK(e)
                            ELSE IF PairOnly(e) THEN e.out = "ok" /\ AxisRelOK(e)
@@ -212,6 +221,7 @@ EventOK(e) ==
       [] e.ev = "dev"  -> DevOK(e)
       [] e.ev = "devnan" -> DevNanOK(e)
       [] e.ev = "devscale" -> DevScaleOK(e)
+      [] e.ev = "devnarrow" -> DevNarrowOK(e)
       [] e.ev = "ent"  -> EntOK(e)
       [] OTHER -> FALSE
 
